@@ -575,3 +575,79 @@ func shallowOrigins(v ssa.Value) map[ssa.Value]bool {
 	walk(v)
 	return out
 }
+
+// intervalAt derives, from the branch outcomes that edge-dominate block b, the interval [lo, hi] of values allowed
+// for the integer expression identified by isX (comparisons of X with constants only). Unbounded sides are
+// reported as ok=false.
+func intervalAt(fn *ssa.Function, b *ssa.BasicBlock, isX vpred) (lo, hi int64, hasLo, hasHi bool) {
+	for _, f := range factsAt(fn, b) {
+		bin, ok := f.Atom.(*ssa.BinOp)
+		if !ok {
+			continue
+		}
+		x, y, op := bin.X, bin.Y, bin.Op
+		k, isK := constIntOf(y)
+		if !isK {
+			// const on the left: mirror
+			k, isK = constIntOf(x)
+			if !isK {
+				continue
+			}
+			x = y
+			switch op {
+			case token.LSS:
+				op = token.GTR
+			case token.GTR:
+				op = token.LSS
+			case token.LEQ:
+				op = token.GEQ
+			case token.GEQ:
+				op = token.LEQ
+			}
+		}
+		if !isX(x) {
+			continue
+		}
+		holds := f.Holds
+		// constraint on X
+		var newLo, newHi *int64
+		v := func(n int64) *int64 { return &n }
+		switch op {
+		case token.LSS: // X < k
+			if holds {
+				newHi = v(k - 1)
+			} else {
+				newLo = v(k)
+			}
+		case token.LEQ:
+			if holds {
+				newHi = v(k)
+			} else {
+				newLo = v(k + 1)
+			}
+		case token.GTR:
+			if holds {
+				newLo = v(k + 1)
+			} else {
+				newHi = v(k)
+			}
+		case token.GEQ:
+			if holds {
+				newLo = v(k)
+			} else {
+				newHi = v(k - 1)
+			}
+		case token.EQL:
+			if holds {
+				newLo, newHi = v(k), v(k)
+			}
+		}
+		if newLo != nil && (!hasLo || *newLo > lo) {
+			lo, hasLo = *newLo, true
+		}
+		if newHi != nil && (!hasHi || *newHi < hi) {
+			hi, hasHi = *newHi, true
+		}
+	}
+	return
+}
